@@ -254,7 +254,7 @@ def _lattice_unit():
 
             def m_get(p, args, kw):
                 k = args[-1]
-                p.oblige('key@mapping', 'key', st['D'](k.t))
+                lib.key_present(p, 'key@mapping', st['D'](k.t))      # present, or the code catches the KeyError (then: both cases)
                 return tuple_of(k.t)
 
             def m_set(p, args, kw):
